@@ -191,6 +191,7 @@ static void sign_case(size_t mlen)
         ra = crypto_sign_open(oa + 16, &la, XA, L, PA); rb = crypto_sign_open(ob + 16, &lb, XB, L, PB); n_eval++; n_nontriv++; \
         if (ra == 0 || rb == 0 || la || lb || memcmp(oa, ob, mlen + 128)) { snprintf(key, sizeof key, "crypto_sign_open/%s@%ld/mlen=%zu", what, (long) (pos), mlen); \
             vf_fail(key, "%s", (ra == 0 || rb == 0) ? "altered signed message accepted" : (la || lb) ? "length not zero on failure" : "output depends on key/message after failure (or written out of bounds)"); } \
+        { n_eval++; if (crypto_sign_open(NULL, NULL, XA, L, PA) == 0) { snprintf(key, sizeof key, "crypto_sign_open(m=NULL)/%s@%ld/mlen=%zu", what, (long) (pos), mlen); vf_fail(key, "altered signed message accepted by the verify-only call form"); } } \
         if ((L) >= 64) { n_eval++; if (crypto_sign_verify_detached(XA, (XA) + 64, (L) - 64, PA) == 0) { snprintf(key, sizeof key, "crypto_sign_verify_detached/%s@%ld/mlen=%zu", what, (long) (pos), mlen); vf_fail(key, "altered signature accepted"); } } } while (0)
     for (b = 0; b < 8 * full; b++) { if (b >= 512 + 8 * 96 && !thorough && (b % 8) != (mlen % 8)) continue; flip(x, smA, full, b); flip(y, smB, full, b); ST("bit", b, x, y, full, pkA, pkB); }
     for (b = 0; b < 256; b++) { unsigned char pkn[32]; flip(pkm, pkA, 32, b); flip(pkn, pkB, 32, b); ST("pk-bit", b, smA, smB, full, pkm, pkn); }
